@@ -571,6 +571,8 @@ pub struct C10 {
     /// a PDU was lost: in unacknowledged mode nothing is retransmitted, so the peer was not
     /// reachable for it
     lost: bool,
+    /// the sender's EOF(cancel) has been delivered to the receiver
+    r_knows: bool,
 }
 impl Monitor for C10 {
     fn step(&mut self, rec: &StepRec, ctx: &mut Ctx) {
@@ -580,10 +582,22 @@ impl Monitor for C10 {
         if let Ev::Drop(_) = rec.ev {
             self.lost = true;
         }
+        if let Some((Side::R, p)) = &rec.delivered {
+            if let Some(Operations::EoF(e)) = op_of(p) {
+                if e.condition == Condition::CancelReceived {
+                    self.r_knows = true;
+                }
+            }
+        }
         for (side, i) in &rec.inds {
             match i {
                 Indication::Finished(f) => {
                     if *side == Side::R && is_success(ctx.scn, &(f.report.condition, f.delivery_code, f.file_status)) {
+                        // a cancel that has taken effect at the receiver (its own user's request, or
+                        // the sender's EOF(cancel) delivered) rules out a later "delivered" report
+                        if (self.cancelled_by == Some(Side::R) || self.r_knows) && !self.r_success {
+                            ctx.flag("delivered-after-cancel", format!("by={:?}", self.cancelled_by), "the receiver reported a successful complete delivery after the cancel had taken effect at it");
+                        }
                         self.r_success = true;
                         if self.cancelled_by.is_none() {
                             self.r_success_before = true;
@@ -656,7 +670,7 @@ impl Monitor for C10 {
         }
     }
     fn key(&self) -> String {
-        format!("{:?}{}{}{}{:?}{:?}{}{}", self.cancelled_by, self.blackout, self.r_success_before, self.r_success, self.s_last_cond, self.r_last_cond, self.peer_over_at_cancel, self.lost)
+        format!("{:?}{}{}{}{:?}{:?}{}{}", self.cancelled_by, self.blackout, self.r_success_before, self.r_success, self.s_last_cond, self.r_last_cond, self.peer_over_at_cancel, self.lost) + if self.r_knows { "k" } else { "" }
     }
     fn outcome(&self) -> String {
         format!("cancel={:?} S={:?} R={:?}", self.cancelled_by, self.s_last_cond, self.r_last_cond)
